@@ -38,6 +38,7 @@ M = [
      "        loss_i = self._river_metric.get()\n        self._river_metric.revert(y_true=y_true, y_pred=y_prediction)\n"),
     ("C18", "D22-tracker-keys-in-a-set", MULTI, ["self._tracked_keys: typing.Dict = {}", "                self._tracked_keys[key] = None\n"],
      ["self._tracked_keys: typing.Set = set()", "                self._tracked_keys.add(key)\n"]),
+    ("C16", "D23-alpha-kept-as-numpy-scalar", BASE, "        if isinstance(smoothing_alpha, np.generic):  # a NumPy scalar would force counters and estimates into its type\n            smoothing_alpha = smoothing_alpha.item()\n", ""),
     # ---- the pre-repair behaviour of D11-D15, kept as mutants -------------------------------------------
     ("C06", "D11-subset-walked-once-per-sample", MARG, "        feature_subset = list(feature_subset)\n        predictions = []\n", "        predictions = []\n"),
     ("C19", "D11-tree-subset-walked-once-per-sample", TREEI, "        feature_subset = list(feature_subset)\n        predictions = []\n", "        predictions = []\n"),
